@@ -411,7 +411,7 @@ def expand_member_helpers(facts, fn, depth=3, _stack=()):
     cls = fn.get("cls")
     changed = [False]
 
-    def helper_for(call):
+    def helper_for(call, allow_value=False):
         if call.get("k") not in ("CallExpr", "CXXMemberCallExpr"):
             return None
         base = call_base(call)
@@ -424,7 +424,7 @@ def expand_member_helpers(facts, fn, depth=3, _stack=()):
             return None
         g = cands[0]
         rets = [x for x in walk(body(g), into_lambdas=False) if x.get("k") == "ReturnStmt"]
-        if any(kids(r) for r in rets):
+        if any(kids(r) for r in rets) and not allow_value:
             return None     # the helper returns a value: not a plain block of statements
         # `return;` inside the helper (guards such as "nothing to build") stays a return after splicing: the rules treat it as an
         # exit of the construction, which is what it is for the caller as long as nothing the rules look at follows the call
@@ -438,6 +438,11 @@ def expand_member_helpers(facts, fn, depth=3, _stack=()):
         for c in n.get("c", []):
             if c is not None and n.get("k") == "CompoundStmt":
                 g = helper_for(c)
+                if g is None and c.get("k") == "ReturnStmt" and kids(c) and strip(kids(c)[0]) is not None and strip(kids(c)[0]).get("k") in ("CallExpr", "CXXMemberCallExpr"):
+                    # `return helper(args);` - the function forwards: the helper's returns are this function's returns
+                    g = helper_for(strip(kids(c)[0]), allow_value=True)
+                    if g is not None:
+                        c = strip(kids(c)[0])
                 if g is not None:
                     ge = expand_member_helpers(facts, g, depth - 1, _stack + (fn["qname"],))
                     gb = _copy_node(body(ge))
